@@ -311,8 +311,8 @@ func (e *Engine) doAssert(st *State, id string, c *Term) {
 			e.rep.vectors = append(e.rep.vectors, v)
 		}
 		e.sol.Done()
-		// continue under the assumption that the assertion holds
-		e.assume(st, c)
+		// the path continues unconstrained, so that later obligations on it are
+		// still examined for the inputs that violate this one
 	default:
 		o.Unknown++
 		e.sol.Done()
